@@ -39,8 +39,14 @@ def _apply_one(text, old, new, count, scope=None):
         k = text.find(scope)
         if k < 0:
             return None
-        rest = _apply_one(text[k:], old, new, count)
-        return None if rest is None else text[:k] + rest
+        end = len(text)
+        if scope.startswith('def '):
+            # a top-level function ends where the next top-level definition starts
+            ends = [x for x in (text.find('\ndef ', k + 1), text.find('\nclass ', k + 1), text.find('\n@', k + 1)) if x >= 0]
+            if ends:
+                end = min(ends) + 1
+        rest = _apply_one(text[k:end], old, new, count)
+        return None if rest is None else text[:k] + rest + text[end:]
     if old not in text:
         return None
     if count == 0:
@@ -169,6 +175,10 @@ def run_for(pid, root, rep, seed=0, jobs=16):
     if not rep.quiet:
         print('selftest %s: %d variants, %d ok, %d fail-closed, %d skipped, %d blind, %d noisy' % (
             pid, len(res), summ['ok'], summ['ok-error'], summ['skipped'], summ['blind'], summ['noisy']))
+        if os.environ.get('VERIF_SHOW_SKIPPED'):
+            for r in summ['results']:
+                if r['status'] == 'skipped':
+                    print('  skipped: %s (%s)' % (r['variant'], r['detail']))
 
 
 # ------------------------------------------------------------------ generic behaviour-preserving transforms
